@@ -33,7 +33,10 @@ def resolve_action(obj, dec):
         keys = set(e['key'] for e in ld + rd)
         if len(keys) != 1: raise ApplyError('action %s needs exactly one key, got %r' % (a, sorted(keys, key=str)))
         key = keys.pop()
-        if a == 'clear': return [{'op': 'replace', 'key': key, 'value': _cleared(obj[key])}]
+        if a == 'clear':
+            if isinstance(obj, list):    # a sequence item is replaced by its cleared value (insert + remove at the same index)
+                return [{'op': 'addrange', 'key': key, 'valuelist': [_cleared(obj[key])]}, {'op': 'removerange', 'key': key, 'length': 1}]
+            return [{'op': 'replace', 'key': key, 'value': _cleared(obj[key])}]
         if a == 'remove':
             if isinstance(obj, (list, str)): return [{'op': 'removerange', 'key': key, 'length': 1}]
             return [{'op': 'remove', 'key': key}]
